@@ -303,11 +303,11 @@ where
         assert_eq!(a.n(), self.n() as u32);
         assert_eq!(res.n(), self.n() as u32);
         assert_eq!(a.rank(), res.rank());
+        assert_eq!(res.base2k(), a.base2k());
         let cols = res.rank().as_usize() + 1;
         for i in 0..cols {
             self.vec_znx_negate(res.data_mut(), i, a.data(), i);
         }
-        res.base2k = a.base2k;
     }
 
     fn glwe_negate_assign<R>(&self, res: &mut R)
